@@ -153,6 +153,22 @@ def _impl(tier, seed, search):
                 for nm_, got_ in (('UQ.interp', r[0]), ('slerp', r[1])):
                     gq = got_ if np.dot(got_, wantm) >= 0 else -np.asarray(got_)
                     L.close(f'{nm_}:constant-rate(moderate)', gq, wantm, 1e-7, 1.0, dict(q0=q0, q1=qm1, s=sm, rel_angle=thm), what=f'{nm_} does not turn through s times the relative angle', sig=f'{nm_}:constant-rate')
+        # nearly coincident rotations given by quaternions of opposite sign (inner product next to -1), longer arc: still a unit quaternion /
+        # rotation matrix for every s; several poses with one scalar s: one result per pose
+        qa_ = np.asarray(inputs.unitq(g), float); dq_ = np.r_[math.cos(10.0 ** g.uniform(-7, -4) / 2), math.sin(10.0 ** g.uniform(-7, -4) / 2) * inputs.unit_axis(g)]; qb_ = -qm(qa_, dq_ / np.linalg.norm(dq_)); sa_ = float(g.choice([0.3, 0.5, 0.8]))
+        ok, r = L.noraise('slerp(opposite signs, long arc)', lambda: (np.asarray(b.slerp(qa_, qb_, sa_), float), np.asarray(UnitQuaternion(qa_).interp(sa_, UnitQuaternion(qb_, norm=False)).vec, float)), dict(q0=qa_, q1=qb_, s=sa_), 'slerp between nearly antipodal quaternions')
+        if ok:
+            L.close('slerp(opposite signs):unit', float(np.linalg.norm(r[0])), 1.0, 1e-9, 1.0, dict(q0=qa_, q1=qb_, s=sa_), what='slerp between two quaternions with inner product next to -1 (longer arc) is not a unit quaternion', sig='slerp:valid')
+            L.check('slerp(opposite signs):rotation', geom.so_residual(b.q2r(r[0])) <= 1e-6, dict(q0=qa_, q1=qb_, s=sa_), 'q2r of the interpolated quaternion is not a rotation matrix', sig='slerp:valid')
+            L.close('UQ.interp(opposite signs):unit', float(np.linalg.norm(r[1])), 1.0, 1e-9, 1.0, dict(q0=qa_, q1=qb_, s=sa_), sig='slerp:valid')
+        if i % 4 == 2:
+            for nm_, Xm_ in (('SE3', SE3([T0, T1], check=False)), ('SO3', SO3([R0, R1], check=False)), ('SE2', SE2([inputs.se2(g, 2), inputs.se2(g, 2), inputs.se2(g, 2)], check=False))):
+                for kw_ in (dict(), dict(start=Xm_[0])):
+                    ok, r = L.noraise(f'{nm_}.interp(scalar s) on a sequence', lambda: Xm_.interp(0.4, **kw_), dict(cls=nm_, start=bool(kw_)), f'{nm_}.interp(s) on several poses')
+                    if ok:
+                        L.check(f'{nm_}.interp(scalar s):len', len(r) == len(Xm_), dict(cls=nm_, start=bool(kw_)), f'{nm_}.interp(scalar s) on {len(Xm_)} poses gives {len(r)} result(s)', sig='interp(sequence):len')
+                        if len(r) == len(Xm_):
+                            for k_ in range(len(Xm_)): L.close(f'{nm_}.interp(scalar s)[k]', np.asarray(r.data[k_], float), np.asarray(Xm_[k_].interp(0.4, **kw_).A, float), 1e-9, max(1.0, geom.tmag(np.asarray(r.data[k_], float))), dict(cls=nm_, k=k_), sig='interp(sequence):len')
         # the one-quaternion form (from the identity) with shortest=True for a quaternion with negative scalar part: the short way round,
         # the same rotation as the two-quaternion form from the identity, slerp and the matrix interpolators give
         qneg_ = np.asarray(inputs.unitq(g), float); qneg_ = qneg_ if qneg_[0] < -0.05 else np.r_[-abs(qneg_[0]) - 0.05, qneg_[1:]]; qneg_ = qneg_ / np.linalg.norm(qneg_); s1_ = float(g.choice([0.25, 0.6, 0.5]))
